@@ -53,6 +53,7 @@ def items(tier, seed):
     its = [("conf", seed)]
     its += [("twin", 0)]
     its += [("rs", ch) for ch in K.chunks(rs, 6)]
+    its += [("t1", ch) for ch in K.chunks(t1_cases(), 12)]
     return its
 
 
@@ -163,6 +164,8 @@ def check(item):
         return out
     if kind == "conf":
         return conformance(payload)
+    if kind == "t1":
+        return K.safe_items(check_t1, payload)
     raise ValueError(kind)
 
 
@@ -226,7 +229,70 @@ def _concrete_grad(recipe, point, names):
 # --------------------------------------------------------------------------
 # concrete replay (fresh interpreter, no shims)
 # --------------------------------------------------------------------------
+def replay_t1(payload):
+    """concrete floats through the same one-step harness"""
+    import ast
+    import random
+    case = ast.literal_eval(payload["case"])
+    rng = random.Random(2)
+    global K
+    for attempt in range(12):
+        vals = {}
+
+        class V(dict):
+            def __missing__(self, k):
+                self[k] = rng.uniform(0.3, 0.9) if attempt else 0.5
+                return self[k]
+        import vf.props.common as KK
+        orig = KK.sym_val
+        KK.sym_val = lambda names: V({n: rng.uniform(0.3, 0.9) for n in names})
+        try:
+            import vf.engine.sym as S_
+            from vf.engine import smt as smt_
+            captured = []
+            orig_decide = KK.decide
+            orig_explore = KK.explore
+
+            def fake_explore(fn, **kw):
+                yield [], [], [], fn()
+
+            def fake_decide(claim, pc, dom, what, sig, pl, allv, qt, weak_sat=False):
+                captured.append((what, pl))
+                return dict(status="proved", what=what)
+            KK.explore = fake_explore
+            real_eq = smt_.eq
+            diffs = []
+
+            def num_eq(a, b):
+                try:
+                    fa, fb = float(np.asarray(a).item()), float(np.asarray(b).item())
+                    if np.isfinite(fa) and np.isfinite(fb) and not K.close(fa, fb, 1e-6, 1e-8):
+                        diffs.append((fa, fb))
+                except Exception:  # noqa: BLE001
+                    pass
+                return True
+            smt_.eq = num_eq
+            KK.decide = fake_decide
+            try:
+                with np.errstate(all="ignore"):
+                    r = check_t1(case)
+            finally:
+                smt_.eq = real_eq
+                KK.decide = orig_decide
+                KK.explore = orig_explore
+            for x in r:
+                if x["status"] == "violation" and payload["fn"] in x["what"]:
+                    return True, x["what"]
+            if diffs:
+                return True, f"one-step rule {case}: gradient evaluates to {diffs[0][0]!r}, the chain rule gives {diffs[0][1]!r}"
+        finally:
+            KK.sym_val = orig
+    return False, "no numeric difference reproduced"
+
+
 def replay(payload):
+    if payload.get("kind") == "t1":
+        return replay_t1(payload)
     recipe = K.dec(payload["recipe"])
     w = payload["wrt"]
     names = free_names(recipe)
@@ -260,3 +326,208 @@ def replay(payload):
             last = e
             continue
     return False, "no numeric difference reproduced"
+
+
+# ==========================================================================
+# T1: one inductive step per rule, children are OPAQUE leaves
+# ==========================================================================
+# An opaque leaf stands for an arbitrary sub-expression: its value is a free
+# real a_k and its derivative (returned by a gradient rule registered through
+# the public register_gradient hook) is, by explorer choice, Constant(0.0),
+# Constant(1.0), Constant(c_k) with symbolic c_k, or another opaque leaf da_k.
+# These four classes are exactly what the simplifiers (_is_zero, _is_one,
+# isinstance Constant) can distinguish.  If the rule is right for all of them,
+# it is right for every composition (the rule inspects its children only
+# through these classes: stated assumption, complemented by the bounded
+# compositions of T2).
+_OPQ = {}
+
+
+def _opaque_class():
+    if "cls" in _OPQ:
+        return _OPQ["cls"]
+    from optyx.core.autodiff import register_gradient
+    from optyx.core.expressions import Constant, Expression
+
+    class Opaque(Expression):
+        __slots__ = ("name", "value", "deriv")
+
+        def __init__(self, name, value, deriv):
+            self._hash = None
+            self._degree = None
+            self.name = name
+            self.value = value
+            self.deriv = deriv
+
+        def evaluate(self, values):
+            return self.value
+
+        def get_variables(self):
+            return set()
+
+        def __repr__(self):
+            return f"Opaque({self.name})"
+
+    @register_gradient(Opaque)
+    def _grad_opaque(expr, wrt):
+        return expr.deriv
+
+    _OPQ["cls"] = Opaque
+    return Opaque
+
+
+DKINDS = ["zero", "one", "const", "expr"]
+
+
+def _leaf(name, dkind, val):
+    """(optyx leaf, dual number for the oracle)"""
+    from optyx.core.expressions import Constant
+    from vf.engine.dual import Dual
+    Opaque = _opaque_class()
+    a = val[name]
+    if dkind == "zero":
+        d_expr, d = Constant(0.0), 0.0
+    elif dkind == "one":
+        d_expr, d = Constant(1.0), 1.0
+    elif dkind == "const":
+        d_expr, d = Constant(val["c_" + name]), val["c_" + name]
+    else:
+        d_expr, d = Opaque("d" + name, val["d_" + name], Constant(0.0)), val["d_" + name]
+    return Opaque(name, a, d_expr), Dual(a, d)
+
+
+def t1_cases():
+    from vf.engine.recipes import ALL_UNARY
+    cases = []
+    for op in ("+", "-", "*", "/", "**"):
+        for da in DKINDS:
+            for db in DKINDS:
+                cases.append(("bin", op, da, db))
+    for n in (0, 1, 2, 3, -1, 0.5, 2.5, "sym"):
+        for da in DKINDS:
+            cases.append(("powc", n, da))
+            cases.append(("cpow", n, da))
+    for op in ALL_UNARY:
+        for da in DKINDS:
+            cases.append(("un", op, da))
+    for node in ("lincomb", "vesum", "dot", "l2", "l1", "quad", "dotvv"):
+        for combo in (("expr", "expr"), ("zero", "one"), ("const", "expr"), ("one", "one"), ("zero", "zero")):
+            cases.append(("vec", node, combo))
+    return cases
+
+
+def check_t1(case):
+    import numpy as np
+    from optyx import Variable
+    from optyx.core import autodiff as A
+    from optyx.core.expressions import BinaryOp, Constant, UnaryOp
+    from optyx.core.vectors import DotProduct, L1Norm, L2Norm, LinearCombination, VectorExpression, VectorExpressionSum
+    from optyx.core.matrices import QuadraticForm
+    from vf.engine import smt
+    from vf.engine.dual import Dual
+    from vf.engine.recipes import UNARY
+    from vf.engine.sym import SReal, SymbolicConcretisation
+    res = []
+    names = ["a", "b", "e"]
+    allv = names + ["c_" + n for n in names] + ["d_" + n for n in names] + ["n", "k0", "k1", "q00", "q01", "q10", "q11"]
+    val = K.sym_val(allv)
+    wrt = Variable("w")
+
+    def build():
+        kind = case[0]
+        dom = []
+        if kind == "bin":
+            _, op, da, db = case
+            (A_, a), (B_, b) = _leaf("a", da, val), _leaf("b", db, val)
+            e = BinaryOp(A_, B_, op)
+            if op == "/":
+                dom.append(val["b"] != 0)
+                o = a / b
+            elif op == "**":
+                dom.append(val["a"] > 0)
+                o = a ** b
+            else:
+                o = {"+": a + b, "-": a - b, "*": a * b}[op]
+        elif kind in ("powc", "cpow"):
+            _, n, da = case
+            (A_, a) = _leaf("a", da, val)
+            nv = val["n"] if n == "sym" else n
+            if kind == "powc":
+                e = BinaryOp(A_, Constant(nv), "**")
+                if n == "sym" or float(n) != int(float(n)):
+                    dom.append(val["a"] > 0)
+                elif n < 0:
+                    dom.append(val["a"] != 0)
+                o = a ** nv
+            else:
+                e = BinaryOp(Constant(nv), A_, "**")
+                dom.append(nv > 0 if n == "sym" else True)
+                if n != "sym" and n <= 0:
+                    return None, None, None
+                o = Dual(nv, 0.0) ** a
+        elif kind == "un":
+            _, op, da = case
+            (A_, a) = _leaf("a", da, val)
+            e = UnaryOp(A_, op)
+            p = val["a"]
+            if op in ("log", "log2", "log10", "sqrt"):
+                dom.append(p > 0)
+            elif op == "abs":
+                dom.append(p != 0)
+            elif op == "tan":
+                dom.append(p.cos() != 0)
+            elif op in ("asin", "acos", "atanh"):
+                dom += [p > -1, p < 1]
+            elif op == "acosh":
+                dom.append(p > 1)
+            o = -a if op == "neg" else abs(a) if op == "abs" else getattr(a, UNARY[op])()
+        else:
+            _, node, (d1, d2) = case
+            (A_, a), (B_, b), (E_, ee) = _leaf("a", d1, val), _leaf("b", d2, val), _leaf("e", "expr", val)
+            ve = VectorExpression([A_, B_])
+            ve2 = VectorExpression([E_, A_])
+            ks = np.array([val["k0"], val["k1"]], dtype=object)
+            if node == "lincomb":
+                e, o = LinearCombination(ks, ve), val["k0"] * a + val["k1"] * b
+            elif node == "vesum":
+                e, o = VectorExpressionSum(ve), a + b
+            elif node == "dot":
+                e, o = DotProduct(ve, ve2), a * ee + b * a
+            elif node == "dotvv":
+                e, o = DotProduct(ve, ve), a * a + b * b
+            elif node == "l2":
+                e = L2Norm(ve)
+                s = a * a + b * b
+                dom.append(val["a"] * val["a"] + val["b"] * val["b"] > 0)
+                o = s.sqrt()
+            elif node == "l1":
+                e = L1Norm(ve)
+                dom += [val["a"] != 0, val["b"] != 0]
+                o = abs(a) + abs(b)
+            else:
+                Q = np.array([[val["q00"], val["q01"]], [val["q10"], val["q11"]]], dtype=object)
+                e = QuadraticForm(ve, Q)
+                o = a * (val["q00"] * a + val["q01"] * b) + b * (val["q10"] * a + val["q11"] * b)
+        out = {}
+        for name, fn in (("gradient", A.gradient), ("_gradient_cached", A._gradient_cached), ("_gradient_iterative", A._gradient_iterative)):
+            try:
+                out[name] = fn(e, wrt).evaluate({})
+            except Exception as ex:  # noqa: BLE001
+                out[name] = ex
+        return out, o, dom
+
+    for dec, labels, pc, (out, o, dom) in K.explore(build, max_paths=200):
+        if out is None:
+            continue
+        oracle = K.tangent(o)
+        for name, got in out.items():
+            what = f"T1 {case} {name}"
+            if isinstance(got, SymbolicConcretisation):
+                res.append(K.vacuous_or_error(got, pc, dom, what, repr(case)))
+                continue
+            if isinstance(got, Exception):
+                res.append(violation(f"C02|T1|{name}|raises:{type(got).__name__}|{case[0]}:{case[1]}", f"{what} raises {type(got).__name__}: {str(got)[:100]}",
+                                     dict(kind="t1", case=repr(case), fn=name)))
+                continue
+            res.append(K.decide(smt.eq(got, oracle), pc, dom, what, f"C02|T1|{name}|wrong-rule|{case[0]}:{case[1]}", dict(kind="t1", case=repr(case), fn=name), allv, QT[_TIER]))
+    return res
